@@ -25,6 +25,7 @@ RULE += (" Every ninth source is the object one of the library's READERS returns
 RULE += (' Every eleventh source is a netCDF file as other tools write it, made here with netCDF4 directly: packed variables (int16 with scale_factor/add_offset, with and without _FillValue, with and without missing cells) next to a plain coordinate.')
 RULE += (' Those files also carry a variable with missing cells but no missing code of its own (netCDF default fill value), a variable with values outside its valid_range, and - for the NETCDF4 flavour - a netCDF string variable.')
 RULE += (' Packed variables of the netCDF4-written sources carry both packing attributes, add_offset only, or scale_factor only.')
+RULE += (' One case in fifty saves variables of more than a megabyte (a float32 matrix of 520-700 x 500 and a masked float64 record variable).')
 ASSUMPTIONS = [
     'classic-model flavours cannot hold int64/unsigned: such files are '
     'outside the domain there (must raise or round-trip)',
@@ -69,6 +70,25 @@ def gen(rng, idx, tier, seed):
         return {'file': {'nc4src': {'n': n, 'm': m, 'vars': vs,
                                     'unlimited': bool(rng.random() < 0.5)}},
                 'format': fmt, 'complevel': 0,
+                'via': str(rng.choice(['save', 'pncwrite', 'pncgen'])),
+                'auto': bool(rng.random() < 0.5), 'format2': None}
+    if idx % 50 == 23:
+        # variables of more than a megabyte (whatever the writer does in
+        # pieces), with lengths that are no multiple of anything
+        nr = int(rng.integers(520, 700))
+        core = {'dims': [['t', int(rng.integers(3, 9)), True],
+                         ['r', nr, False], ['c', 500, False],
+                         ['y', int(rng.integers(90, 131)), False]],
+                'vars': [
+                    {'name': 'BIG', 'dims': ['r', 'c'], 'dtype': 'f4',
+                     'kind': 'data', 'mask': 'none', 'fill': None,
+                     'seed': int(rng.integers(1 << 30)), 'attrs': []},
+                    {'name': 'REC', 'dims': ['t', 'y', 'c'], 'dtype': 'f8',
+                     'kind': 'data', 'mask': 'random', 'fill': -999.0,
+                     'seed': int(rng.integers(1 << 30)), 'attrs': []}],
+                'attrs': [['title', 'large']], 'coords': []}
+        return {'file': {'core': core}, 'format': fmt,
+                'complevel': int(rng.choice([0, 0, 4])),
                 'via': str(rng.choice(['save', 'pncwrite', 'pncgen'])),
                 'auto': bool(rng.random() < 0.5), 'format2': None}
     if idx % 9 == 8:
